@@ -814,8 +814,24 @@ def run_all(queries, prop, findings, jobs=None, on_result=None):
                                         error="worker died", required=q.required))
                 p.join()
             elif not p.is_alive():
-                results.append(dict(query=q.name, kind=q.kind, check="*", status="error",
-                                    error=f"worker exited {p.exitcode}", required=q.required))
+                # the worker may have sent its result and exited between our poll() and is_alive()
+                if pc.poll(0.5):
+                    try:
+                        got = pc.recv()
+                        results.extend(got)
+                        if on_result:
+                            for g in got:
+                                on_result(g)
+                        p.join()
+                        continue
+                    except EOFError:
+                        pass
+                if not getattr(q, "_retried", False):
+                    q._retried = True          # killed from outside (e.g. the kernel's OOM killer): one more try
+                    pending.append(q)
+                else:
+                    results.append(dict(query=q.name, kind=q.kind, check="*", status="error",
+                                        error=f"worker exited {p.exitcode}", required=q.required))
             elif time.time() - t0 > q.timeout * 3 + 120:
                 p.kill()
                 p.join()
